@@ -340,17 +340,17 @@ Lemma request_without_slot : forall s lines,
 Proof. intros s lines H. cbn [hstep]. unfold has_rollout_slot. rewrite H. reflexivity. Qed.
 
 Lemma slot_none_preserved : forall cmds s,
-  existsb is_rollout_deploy cmds = false -> existsb is_restart cmds = false ->
+  existsb is_rollout_deploy cmds = false ->
   sv_rollout s = NoLB -> sv_rollout (fst (hrun s cmds)) = NoLB.
 Proof.
-  induction cmds as [|c cmds IH]; intros s Hd Hr Hs; cbn [hrun fst]; [exact Hs|].
-  cbn [existsb] in Hd, Hr. apply orb_false_iff in Hd. apply orb_false_iff in Hr.
-  destruct Hd as [Hd1 Hd2]. destruct Hr as [Hr1 Hr2].
+  induction cmds as [|c cmds IH]; intros s Hd Hs; cbn [hrun fst]; [exact Hs|].
+  cbn [existsb] in Hd. apply orb_false_iff in Hd. destruct Hd as [Hd1 Hd2].
   destruct (hstep s c) as [s1 o] eqn:Hstep.
-  specialize (IH s1 Hd2 Hr2). destruct (hrun s1 cmds) as [s2 os]. cbn [fst] in *.
-  apply IH. destruct c; cbn in Hstep, Hd1, Hr1; try discriminate.
+  specialize (IH s1 Hd2). destruct (hrun s1 cmds) as [s2 os]. cbn [fst] in *.
+  apply IH. destruct c; cbn in Hstep, Hd1; try discriminate.
   - injection Hstep as <- _. exact Hs.
   - unfold has_rollout_slot in Hstep. rewrite Hs in Hstep. injection Hstep as <- _. exact Hs.
+  - injection Hstep as <- _. exact Hs.
   - injection Hstep as <- _. exact Hs.
   - injection Hstep as <- _. exact Hs.
 Qed.
@@ -359,33 +359,33 @@ Lemma set_without_slot : forall s p allow,
   sv_rollout s = NoLB -> hstep s (HSet p allow) = (s, OErrNoRollout).
 Proof. intros s p allow H. cbn [hstep]. unfold has_rollout_slot. rewrite H. reflexivity. Qed.
 
-(** The model and the property's reading agree on restart-free histories. *)
+(** The model and the property's reading agree on every history. *)
 Definition related (s : svc) (ss : spec_state) : Prop :=
   sv_active s = ss_active ss /\ sv_ctrl s = ss_split ss /\
   sv_rollout s = match ss_targets ss with Some r => LB r | None => NoLB end.
 
-Lemma step_related : forall s ss c, related s ss -> is_restart c = false ->
+Lemma step_related : forall s ss c, related s ss ->
   related (fst (hstep s c)) (fst (spec_step ss c)) /\ snd (hstep s c) = snd (spec_step ss c).
 Proof.
-  intros s ss c (Ha & Hc & Hr) Hnr. unfold related.
-  destruct c as [id|id|p allow| | |lines]; cbn [hstep spec_step fst snd]; try discriminate.
+  intros s ss c (Ha & Hc & Hr). unfold related.
+  destruct c as [id|id|p allow| | |lines]; cbn [hstep spec_step fst snd].
   - cbn. auto.
   - cbn. auto.
   - unfold has_rollout_slot. rewrite Hr. destruct (ss_targets ss) as [r|] eqn:Ht; cbn; rewrite ?Ht; auto.
   - cbn. auto.
+  - auto.
   - split; [auto|]. unfold has_rollout_slot. rewrite Hr, Hc, Ha.
     destruct (ss_targets ss) as [r|]; destruct (ss_split ss) as [c|]; unfold pick; cbn; auto.
     destruct (uses_rollout c lines); reflexivity.
 Qed.
 
-Lemma run_related : forall cmds s ss, related s ss -> existsb is_restart cmds = false ->
+Lemma run_related : forall cmds s ss, related s ss ->
   snd (hrun s cmds) = snd (spec_run ss cmds).
 Proof.
-  induction cmds as [|c cmds IH]; intros s ss HR Hnr; cbn [hrun spec_run]; [reflexivity|].
-  cbn [existsb] in Hnr. apply orb_false_iff in Hnr. destruct Hnr as [Hc Hrest].
-  destruct (step_related s ss c HR Hc) as [HR' Ho].
+  induction cmds as [|c cmds IH]; intros s ss HR; cbn [hrun spec_run]; [reflexivity|].
+  destruct (step_related s ss c HR) as [HR' Ho].
   destruct (hstep s c) as [s1 o]. destruct (spec_step ss c) as [ss1 o']. cbn [fst snd] in *.
-  specialize (IH s1 ss1 HR' Hrest).
+  specialize (IH s1 ss1 HR').
   destruct (hrun s1 cmds) as [s2 os]. destruct (spec_run ss1 cmds) as [ss2 os']. cbn [snd] in *.
   now subst.
 Qed.
